@@ -20,13 +20,16 @@ def run(m, chk):
         "knot vector; the degree setter dispatches times>0 to degree_increase(times) and times<0 to degree_decrease(-times); degree_increase / apply commit last; no divisor on the elevation path is a bare node "
         "parameter (interior knot 0); the committed state depends on times, knot vector, points and weights. That elevation preserves the function and raises multiplicities by exactly t is not decided."
     )
-    chk.decides = ["MULT-AWARE (the copies inserted / removed around a degree elevation are counted from each knot's multiplicity)", "ELEVATED-VECTOR (the knot vector written next to Operations.degree_increase(U, t) is U + t * U.knots)", "ERROR-QUADRATIC (the error handed to the gate is the whole quadratic form when the fit is constrained)", "NODES-OF-NEW (the interpolation nodes handed to update() are the knots of the new knot vector, taken after its last change)", "DEHOMOG-PAIR (points divided by a list of weights are stored with exactly those weights)", "ARG-RANGE (degree_increase / degree_decrease refuse no admissible times before trying)", "LOOP-ACCUMULATE (the error handed to the gate is not overwritten per component in a loop)", "GATE-TOL", "N", "ARG-FLOW", "X-ESCAPE", "DISPATCH(degree setter)", "COMMIT-LAST", "D", "DEP-MAY", "fresh knot-vector copy", 'PRECHECK', 'MEMO-KEY (no value-keyed memoisation on the elevation / reduction path)', 'WEIGHT-HOMOG', 'OPEN-NODES (the fit behind degree_decrease integrates with open nodes)']
+    chk.decides = ["ERROR-COVERS (the error fit_curve returns contains the quadratic form of the error matrix for every quantity the fit replaces — weighted points and weights)", "MULT-AWARE (the copies inserted / removed around a degree elevation are counted from each knot's multiplicity)", "ELEVATED-VECTOR (the knot vector written next to Operations.degree_increase(U, t) is U + t * U.knots)", "ERROR-QUADRATIC (the error handed to the gate is the whole quadratic form when the fit is constrained)", "NODES-OF-NEW (the interpolation nodes handed to update() are the knots of the new knot vector, taken after its last change)", "DEHOMOG-PAIR (points divided by a list of weights are stored with exactly those weights)", "ARG-RANGE (degree_increase / degree_decrease refuse no admissible times before trying)", "LOOP-ACCUMULATE (the error handed to the gate is not overwritten per component in a loop)", "GATE-TOL", "N", "ARG-FLOW", "X-ESCAPE", "DISPATCH(degree setter)", "COMMIT-LAST", "D", "DEP-MAY", "fresh knot-vector copy", 'PRECHECK', 'MEMO-KEY (no value-keyed memoisation on the elevation / reduction path)', 'WEIGHT-HOMOG', 'OPEN-NODES (the fit behind degree_decrease integrates with open nodes)']
     chk.not_decided = ["elevation preserves the function", "multiplicities raised by exactly t", "reduction is the exact inverse"]
     tolerance_gate(r, chk)
     rule_n(r, chk)
     q = C + "degree_decrease"
     arg_flow(r, chk, "ARG-FLOW", q, ".update", "tolerance", ["tolerance"])
     arg_flow(r, chk, "ARG-FLOW", q, ".update", "nodes", ["self.knotvector", "times"], what="with tolerance=None the values at the remaining knots must be kept")
+    from .extra import error_covers
+
+    error_covers(r, chk)
     from .extra import error_quadratic
 
     error_quadratic(r, chk, "heavy.LeastSquare.func2func")
